@@ -128,6 +128,16 @@ def instances(tier):
             for r in depths:
                 out.append(dict(id="affine-%s-to-%s-bo%d-fixed%s" % (_tag(sin), _tag(sout), bo, "default" if r is None else r), kind="affine", sin=list(sin), sout=list(sout),
                                 bo=bo, adaptive=False, riter=r, budget=dict(wall_s=80 if quick else 600, max_paths=4000)))
+    # the state handed over is NOT stored in C order (column-major copy / transposed view, what np.asfortranarray(Y) or Y.T give):
+    # entry [i..., j...] is still d output_i / d input_j for the LOGICAL index j
+    for sin, sout in ([((2, 2), (3,))] if quick else [((2, 2), (3,)), ((3, 2), (2,)), ((2, 3), (2,))]):
+        for bo in ((2, 5) if quick else (2, 4, 5)):
+            for r in ((1,) if quick else (1, 2)):
+                out.append(dict(id="affine-%s-to-%s-bo%d-fixed%s-fortran" % (_tag(sin), _tag(sout), bo, r), kind="affine", sin=list(sin), sout=list(sout),
+                                bo=bo, adaptive=False, riter=r, layout="F", budget=dict(wall_s=80 if quick else 600, max_paths=4000)))
+        if not quick:
+            out.append(dict(id="affine-%s-to-%s-bo2-adaptive-fortran" % (_tag(sin), _tag(sout)), kind="affine", sin=list(sin), sout=list(sout),
+                            bo=2, adaptive=True, riter=None, layout="F", budget=dict(wall_s=600, max_paths=400)))
     # polynomial maps
     polys = []
     for bo in (2, 4, 5):
@@ -323,6 +333,9 @@ def _scen_affine(c, inst):
         return
     y0 = [c.real("y%d" % k) for k in range(n)]
     y = c.array(y0).reshape(sin)
+    if inst.get("layout") == "F":
+        y = y.T.copy().T        # same values, same logical indices, column-major storage
+        assert not y.flags["C_CONTIGUOUS"] and tuple(y.shape) == sin
     A = [[c.real("A%d_%d" % (i, k)) for k in range(n)] for i in range(m)]
     F = [c.real("F%d" % i) for i in range(m)]
     absF = [absval(c, F[i]) for i in range(m)]
